@@ -93,8 +93,9 @@ theorem inv_touch (c : QCache) (k : QKey) (h : c.Inv) : (c.touch k).Inv := by
 @[simp] theorem cap_touch (c : QCache) (k : QKey) : (c.touch k).cap = c.cap := by
   unfold touch; split <;> rfl
 
-theorem inv_store (c : QCache) (k : QKey) (r : Nat) (res : List (Nat × Nat)) (g : Option Nat)
-    (h : c.Inv) : (c.store k r res g).1.Inv ∧ (c.store k r res g).1.cap = c.cap := by
+theorem inv_store (c : QCache) (k : QKey) (q : List Nat) (r : Nat) (res : List (Nat × Nat))
+    (g : Option Nat) (h : c.Inv) :
+    (c.store k q r res g).1.Inv ∧ (c.store k q r res g).1.cap = c.cap := by
   unfold store
   simp only
   split
@@ -117,7 +118,7 @@ theorem inv_store (c : QCache) (k : QKey) (r : Nat) (res : List (Nat × Nat)) (g
         · simp only [List.length_append, List.length_cons, List.length_nil]
           omega
 
-theorem inv_get (c : QCache) (k : QKey) (w : Nat) (o : List QKey) (h : c.Inv) :
+theorem inv_get (c : QCache) (k : QKey) (w : Nat) (o : List (List Nat)) (h : c.Inv) :
     (c.get k w o).1.Inv ∧ (c.get k w o).1.cap = c.cap := by
   unfold get
   split
@@ -126,9 +127,7 @@ theorem inv_get (c : QCache) (k : QKey) (w : Nat) (o : List QKey) (h : c.Inv) :
     · exact ⟨h, rfl⟩
   · simp only
     split
-    · split
-      · exact ⟨inv_touch c _ h, by simp⟩
-      · exact ⟨h, rfl⟩
+    · exact ⟨inv_touch c _ h, by simp⟩
     · exact ⟨h, rfl⟩
 
 theorem inv_filter (c : QCache) (p : QEntry → Bool) (g : Nat) (h : c.Inv) :
@@ -141,7 +140,7 @@ theorem inv_filter (c : QCache) (p : QEntry → Bool) (g : Nat) (h : c.Inv) :
 theorem inv_applyOp (c : QCache) (op : QOp) (h : c.Inv) :
     (c.applyOp op).Inv ∧ (c.applyOp op).cap = c.cap := by
   cases op with
-  | store k r res g => exact inv_store c k r res g h
+  | store k q r res g => exact inv_store c k q r res g h
   | get k w o => exact inv_get c k w o h
   | invalidateDoc d => exact ⟨inv_filter c _ _ h, rfl⟩
   | invalidateForInsert hit => exact ⟨inv_filter c _ _ h, rfl⟩
